@@ -100,7 +100,7 @@ def run(db, rep, tier):
     rep.notes.append('%d lifecycle paths explored' % data['paths'])
     for k in sorted(data['ops'])[:400]:
         rep.fn(k)
-    ownrules.report(rep, data, ('B.acc', 'B.oob'), False, 'B.acc')
+    ownrules.report(rep, data, ('B.acc', 'B.oob', 'B.inv', 'B.inv.empty'), False, 'B.acc')  # the invariant is the induction hypothesis of the accounting argument
     rep.floor('B.acc', data['paths'], 1000)
     # GSL pairing
     units = ['SUNalg', 'const', 'SQuIDS', 'MatrixExp']
